@@ -16,7 +16,9 @@ use starlark::eval::Evaluator;
 use starlark::eval::ReturnFileLoader;
 use starlark::syntax::AstModule;
 use starlark::syntax::Dialect;
+use starlark::values::FrozenHeap;
 use starlark::values::FrozenHeapName;
+use starlark::values::FrozenValue;
 use starlark::values::OwnedFrozen;
 use starlark::values::Value;
 
@@ -181,6 +183,26 @@ pub fn run_case(case: &J) -> Vec<J> {
                     _ => log(json!(["op_err", i, "source not live"])),
                 }
             }
+            "forward" => {
+                // re-home a handle under a fresh frozen heap which only *references* the producer
+                // (alloc = false: empty arena, a pure forwarding heap) or also allocates a wrapper tuple
+                let alloc = op.get("alloc").and_then(|m| m.as_bool()).unwrap_or(false);
+                match objs.get(op["from"].as_str().unwrap_or("")) {
+                    Some(Obj::Of(x)) => {
+                        let x = x.clone();
+                        let o = OwnedFrozen::<Value<'static>>::build(FrozenHeapName::user(&name), |f: &FrozenHeap| {
+                            let fv: FrozenValue = x.as_ref().add_to_frozen_heap(f).unpack_frozen().expect("frozen");
+                            if alloc {
+                                f.alloc((fv, 7)).to_value()
+                            } else {
+                                fv.to_value()
+                            }
+                        });
+                        created = Some(Obj::Of(o));
+                    }
+                    _ => log(json!(["op_err", i, "forward source not a live handle"])),
+                }
+            }
             "globals" => {
                 let mut b = if cfg!(miri) { GlobalsBuilder::new().with(natives::harness_natives) } else { run::globals_builder() };
                 let mut names = Vec::new();
@@ -194,6 +216,16 @@ pub fn run_case(case: &J) -> Vec<J> {
                                 b.set(var, fv);
                                 names.push(var.to_owned());
                             }
+                        }
+                    }
+                }
+                // values reached through owned handles (possibly forwarded through other heaps)
+                for kv in op.get("from_owned").and_then(|o| o.as_array()).unwrap_or(&Vec::new()) {
+                    let var = kv[0].as_str().unwrap();
+                    if let Some(Obj::Of(of)) = objs.get(kv[1].as_str().unwrap()) {
+                        if let Some(fv) = of.as_ref().add_to_frozen_heap(b.frozen_heap()).unpack_frozen() {
+                            b.set(var, fv);
+                            names.push(var.to_owned());
                         }
                     }
                 }
